@@ -115,6 +115,8 @@ def base_obligations(ctx, clean):
 def finish(ctx):
     known = load_known()
     lines, violations, known_hit = [], 0, {}
+    import shutil
+    shutil.rmtree(os.path.join(REPLAYS, ctx.pid), ignore_errors=True)
     os.makedirs(os.path.join(REPLAYS, ctx.pid), exist_ok=True)
     seen = set()
     for f in ctx.failures:
